@@ -18,7 +18,7 @@ LEVEL = 'model_checking'
 TECHNIQUE = ('bounded exhaustive enumeration of the (source kind, target mode, layout, operand form, copy) coercion matrix on the real '
              'as_()/FST(node, mode)/put code, judged by re-parsing in the requested mode, token-level leaf conservation and '
              'differential route equality')
-LEVEL_TEXT = ('every witness (590 source witnesses x 4 layouts) x every target (45 parse modes + 60 AST types) x 3 operand forms x copy modes is '
+LEVEL_TEXT = ('every witness (638 source witnesses x 6 layouts) x every target (45 parse modes + 60 AST types) x 3 operand forms x copy modes is '
               'executed on the real code; each result is checked to be a root of the requested kind that re-parses in that mode to '
               'itself, to conserve the operand\'s leaves in order, to agree between the formatted and the pure-AST route and to '
               'leave the operand untouched in copy mode; put-with-coercion is compared with put of the explicitly coerced node')
@@ -27,7 +27,7 @@ LEVEL_NOTE = ('trusted: CPython tokenize for leaves, ast for structure; the requ
 RULE = ('enum: case = (witness, layout, target, operand form, copy); non-trivial = distinct successful coercions to a different kind; '
         'states = distinct result sources; traces = coercions checked')
 ASSUMPTIONS = ['any exception class counts as "raises" except when the two routes disagree about success']
-BOUNDS = {'quick': '553 witnesses (109 hand-written + every parameter-list shape + every arrangement of <= 3 call arguments) x 4 layouts x 104 targets x {FST root, pure AST} + non-root and copy variants on the bare layout; 7 put slots',
+BOUNDS = {'quick': '638 witnesses (194 hand-written + every parameter-list shape + every arrangement of <= 3 call arguments) x 6 layouts (bare, parenthesized, over lines, with comments, behind one / two line continuations) x 104 targets x {FST root, pure AST} + non-root and copy variants on the bare layout; 21 put slots',
           'thorough': 'all operand forms x all layouts'}
 
 WITNESSES = [
